@@ -29,7 +29,9 @@ type CopyCase struct {
 	Note      []string `json:"note,omitempty"`
 }
 
-var destNames = []string{"text", "pretty", "binary", "binary+shared-tables"}
+var destNames = []string{"text", "pretty", "binary", "binary+shared-tables", "text+shared-tables", "pretty+shared-tables"}
+
+func destBinary(d int) bool { return d == 2 || d == 3 }
 
 var copyShared = []SymImport{
 	{Name: "A", Version: 1, Symbols: []string{"a1", "a2", "a3"}},
@@ -254,6 +256,10 @@ func runCopyCase(k *CopyCase) (verdict string, skipped bool) {
 		w = ion.NewTextWriterOpts(&out, ion.TextWriterPretty)
 	case 2:
 		w = ion.NewBinaryWriter(&out)
+	case 4:
+		w = ion.NewTextWriter(&out, ssts...)
+	case 5:
+		w = ion.NewTextWriterOpts(&out, ion.TextWriterPretty, ssts...)
 	default:
 		w = ion.NewBinaryWriter(&out, ssts...)
 	}
@@ -264,11 +270,11 @@ func runCopyCase(k *CopyCase) (verdict string, skipped bool) {
 		return "Finish failed: " + err.Error(), false
 	}
 	dest := out.Bytes()
-	k.DestShown = showInput(k.Dest >= 2, dest)
+	k.DestShown = showInput(destBinary(k.Dest), dest)
 	// destination read by ion-go (it needs the catalog only for the shared-table destination)
 	var dcat ion.Catalog
 	var drcat refsym.Catalog
-	if k.Dest == 3 {
+	if k.Dest >= 3 {
 		dcat, drcat = ic, rc
 	}
 	back := ionx.Observe(ion.NewReaderCat(bytes.NewReader(dest), dcat))
@@ -280,7 +286,7 @@ func runCopyCase(k *CopyCase) (verdict string, skipped bool) {
 	}
 	var got []*model.Value
 	var err error
-	if k.Dest >= 2 {
+	if destBinary(k.Dest) {
 		got, err = refbin.Decode(dest, &refbin.DecodeOpts{Catalog: drcat})
 	} else {
 		got, err = reftext.Parse(string(dest), &reftext.ParseOpts{Catalog: drcat})
@@ -470,7 +476,7 @@ func runC05(c *Ctx) {
 			src = data
 		}
 		c.JournalCase(w, fmt.Sprintf("copy case_seed=%d", cs))
-		for dest := 0; dest < 4; dest++ {
+		for dest := 0; dest < len(destNames); dest++ {
 			k := CopyCase{SrcBinary: binary, SrcHex: hex.EncodeToString(src), SrcShown: showInput(binary, src), Dest: dest, WithCat: withCat, Note: note}
 			v, skipped := runCopyCase(&k)
 			if skipped {
